@@ -99,6 +99,9 @@ pub enum Mode {
     Include,
     /// the plain rendering with CRLF line ends
     Crlf,
+    /// after the start history (which has used X already) X is declared with a note and, after it, the alias `xx`;
+    /// the judged transaction writes `xx` wherever it means X
+    ComAlias,
 }
 
 pub struct Case {
@@ -135,6 +138,25 @@ pub fn build(mode: Mode, hist: &[Txn], txn: &Txn) -> Case {
             let (f, l) = *r.txn_lines.last().unwrap();
             let text = if mode == Mode::Crlf { r.text.replace('\n', "\r\n") } else { r.text.clone() };
             Case { desc: r.text.clone(), files: vec![(root, text)], txn_first: f, txn_last: l, posting_lines: r.posting_lines.last().unwrap().clone(), hist_has_assert_after_omitted }
+        }
+        Mode::ComAlias => {
+            let h = rl::render("", hist, &|_, _, a| a.to_string());
+            let header = format!("{}commodity X\n  note declared late\n  alias xx\n\n", h.text);
+            let t = rl::render(&header, std::slice::from_ref(txn), &|_, _, a| a.to_string());
+            let (head, tail) = t.text.split_at(header.len());
+            let b: Vec<char> = tail.chars().collect();
+            let mut out = String::from(head);
+            for (i, c) in b.iter().enumerate() {
+                let before_ok = i > 0 && b[i - 1] == ' ';
+                let after_ok = i + 1 >= b.len() || matches!(b[i + 1], ' ' | '\n' | '}' | ')');
+                if *c == 'X' && before_ok && after_ok {
+                    out.push_str("xx");
+                } else {
+                    out.push(*c);
+                }
+            }
+            let (f, l) = t.txn_lines[0];
+            Case { desc: out.clone(), files: vec![(root, out)], txn_first: f, txn_last: l, posting_lines: t.posting_lines[0].clone(), hist_has_assert_after_omitted }
         }
         Mode::Include => {
             let h = rl::render("", hist, &|_, _, a| a.to_string());
@@ -240,7 +262,7 @@ pub fn enumerate_depth1(ctx: &mut Ctx, relevant: &dyn Fn(&Txn) -> bool, judge: &
         let n_hist = hists[hi].len();
         ctx.case(|| format!("[mode {:?}]\n{}", mode, case.desc), || judge(&case, st, &txn, n_hist));
     };
-    for mode in [Mode::Plain, Mode::Alias, Mode::Include, Mode::Crlf] {
+    for mode in [Mode::Plain, Mode::Alias, Mode::Include, Mode::Crlf, Mode::ComAlias] {
         for hi in 0..hists.len() {
             for a in &full {
                 emit(ctx, mode, hi, vec![a.clone()]);
